@@ -90,6 +90,10 @@ def rand_string(rng):
 def generate(rng, tier):
     for s in SAMPLES:
         yield s
+    # numeric parameters far longer than any real one (CPython >= 3.11 refuses int() of more than 4300 digits)
+    for d in (4299, 4301, 5000):
+        yield "x\x1b[" + "7" * d + "mhello"
+        yield "\x9b1;" + "3" * d + "Hz\x1b[31mr"
     if tier == "thorough":
         for n in range(0, 6):
             for t in itertools.product(CORE, repeat=n):
